@@ -365,5 +365,13 @@ pub fn run(tier: &str, seed: u64, out: &Path) -> i32 {
     crate::c01lit::part(&mut o, &mut rng_lit, tier == "thorough");
     o.exhaustive = tier == "thorough";
     o.notes.push("universe as in C02 (fixtures x {base, 7 widths, every option single, 3 name-seeded re-layouts}); a program = one (source, configuration) whose first pass reported nothing; non-trivial = the output differs from the input".into());
+    // the list machinery and the string re-breaker (models RF/Model/Lists*, StringFmt): correspondence and Lean oracles
+    {
+        let th = tier == "thorough";
+        let mut r = Rng::new(seed ^ 0x1157);
+        crate::lists_corr::cases(&mut o, &mut r, th);
+        crate::lists_corr::struct_lit_cases(&mut o, &mut r, th);
+        crate::strings_corr::cases_c01(&mut o, &mut r, th);
+    }
     o.finish(out, jobs())
 }
